@@ -8,11 +8,13 @@ Config nodes.  Both keep sharing exactly as in the abstract DAG.
 from __future__ import annotations
 
 import collections
+import dataclasses
 import functools
 import inspect
 import itertools
 
 import fiddle as fdl
+from fiddle._src import daglish
 
 from vt import kinds, nodes as vnodes, sigs, tags as vtags
 from vt.rec import Sentinel
@@ -521,3 +523,29 @@ def kwargs_rename(root, rng, p=0.5, names=('extra_p', 'extra_q', 'extra_r')):
     n.kw.update(moved)
     changed += 1
   return changed
+
+
+class HidingConfig(fdl.Config):
+  """A Config whose argument `child` is NOT part of its traversal protocol: __flatten__ /
+  __path_elements__ leave it out (it travels in the metadata), __unflatten__ puts it back. What
+  sits below `child` is unreachable for every daglish traversal."""
+
+  HIDDEN = 'child'
+
+  def __flatten__(self):
+    values, metadata = super().__flatten__()
+    keep = [i for i, nm in enumerate(metadata.argument_names) if nm != self.HIDDEN]
+    hidden = {nm: v for nm, v in zip(metadata.argument_names, values) if nm == self.HIDDEN}
+    md = metadata._replace(argument_names=tuple(metadata.argument_names[i] for i in keep))
+    return tuple(values[i] for i in keep), (md, hidden)
+
+  @classmethod
+  def __unflatten__(cls, values, metadata):
+    md, hidden = metadata
+    rebuilt = super().__unflatten__(values, md)
+    rebuilt.__arguments__.update(hidden)
+    return rebuilt
+
+  def __path_elements__(self):
+    return tuple(p for p in super().__path_elements__()
+                 if not (isinstance(p, daglish.Attr) and p.name == self.HIDDEN))
